@@ -528,6 +528,18 @@ def gen_cases(rng, tier, boost):
         yield Case(["ref"], ref=bp, **cm)
     for bad in (dict(as_total="x"), dict(calendar="bogus"), dict(max_results="abc")):
         yield Case(["2000"], local_tz=(0, 0), spell_seed=1, **bad)
+    # both items the SAME keyword (`ref ref`), with offsets on either or both: each item is read afresh
+    for i in range(60 * boost if tier == "quick" else 600 * boost):
+        cal = rng.choice(CALS)
+        m = MODE_OF[cal]
+        refp = point_text(rng, m)
+        kw = dict(calendar=cal, utc=rng.random() < 0.3, local_tz=rng.choice(LOCAL_TZ), spell_seed=rng.getrandbits(30))
+        kw["env_ref" if rng.random() < 0.5 else "ref"] = refp
+        o1 = [offset_text(rng) for _ in range(rng.choice([0, 1, 1, 2]))]
+        o2 = [offset_text(rng) for _ in range(rng.choice([0, 0, 1]))]
+        yield Case(["ref", "ref"], offsets1=o1, offsets2=o2, as_total=rng.choice([None, None, "s", "h"]), **kw)
+        if rng.random() < 0.3:
+            yield Case(["ref", refp], offsets1=o1, offsets2=o2, **kw)
     # a duration with a unit --as-total does not know; print formats only the datetime fallback understands
     for unit in ("x", "d", "hh", ""):
         yield Case(["PT1H"], as_total=unit, local_tz=(0, 0), spell_seed=2)
@@ -601,4 +613,5 @@ def normalise(text):
 
 
 def ops():
-    return [CliOp()]
+    import cli2ops
+    return [CliOp(), cli2ops.CliEvalOp()]
